@@ -78,11 +78,6 @@ extern char g_sk[CMP_EOBJ + 1], g_se[CMP_EOBJ + 1];   /* only the first CMP_EOBJ
 #define CE ((size_t)g_ce[EO])
 #define NK ((size_t)g_ck[g_c_klen])
 #define NE ((size_t)g_ce[g_c_elen])
-/* position-based agreement (profile cmpp): every base letter of the key before offset n equals the element's base
-   letter of the same rank; only the ELEMENT is stripped into a rank-indexed array (g_se, at most CMP_EOBJ entries) */
-#define KBASE(c) ((c) != '\0' && ((unsigned char)(c)) < 0x80)
-#define FA_P(e) __CPROVER_forall { size_t p_; (p_ < CMP_KOBJ) ==> (e) }
-#define AGREE_UPTO(n) FA_P(p_ >= (n) || !KBASE(g_c_key0[p_]) || ((size_t)g_ck[p_] < NE && g_c_key0[p_] == g_se[g_ck[p_]]))
 /* lang_search: arbitrary but fixed comparison outcomes of the key against element i (stub comparer) */
 signed char g_cmp[2048];
 /* polyseed_phrase_decode exit: the local index copy must be wiped (C16) */
